@@ -97,14 +97,19 @@ class GarbageCollector:
         reachable_manifests: Set[str] = set()
         reachable_manifest_lists: Set[str] = set()
 
-        # Add manifest lists from all snapshots
+        # Add manifest lists from all snapshots. Every referenced path enters the
+        # reachable sets under all its comparison keys (_reference_keys); the
+        # file itself is read through the key storage can actually find.
+        lists_to_read: Set[str] = set()
         for snapshot in metadata.snapshots:
             m_list_path = snapshot.manifest_list
             if m_list_path:
-                reachable_manifest_lists.add(self._normalize_path(m_list_path))
+                reachable_manifest_lists.update(self._reference_keys(m_list_path))
+                lists_to_read.add(self._existing_reference(m_list_path))
 
         # Process manifest lists to find manifests and data files
-        for m_list_path in reachable_manifest_lists:
+        manifests_to_read: Set[str] = set()
+        for m_list_path in lists_to_read:
             try:
                 if not self.storage.exists(m_list_path):
                     raise FileNotFoundError(
@@ -119,10 +124,11 @@ class GarbageCollector:
             for m in manifests:
                 m_path = m.manifest_path
                 if m_path:
-                    reachable_manifests.add(self._normalize_path(m_path))
+                    reachable_manifests.update(self._reference_keys(m_path))
+                    manifests_to_read.add(self._existing_reference(m_path))
 
         # Process manifests to find data files
-        for m_path in reachable_manifests:
+        for m_path in manifests_to_read:
             try:
                 if not self.storage.exists(m_path):
                     raise FileNotFoundError(
@@ -135,7 +141,7 @@ class GarbageCollector:
                     f"Nothing was deleted."
                 ) from e
             for df in data_files:
-                reachable_data_files.add(self._normalize_path(df.file_path))
+                reachable_data_files.update(self._reference_keys(df.file_path))
 
         logger.info(f"Found reachable: {len(reachable_manifest_lists)} manifest lists, "
                     f"{len(reachable_manifests)} manifests, {len(reachable_data_files)} data files")
@@ -193,7 +199,7 @@ class GarbageCollector:
             ) from e
 
         for marker_path in markers:
-            norm_marker = self._normalize_path(marker_path)
+            norm_marker = self._normalize_listed_path(marker_path)
             try:
                 age_ok = self.storage.get_modified_time(norm_marker) * 1000 >= cutoff
             except Exception:
@@ -243,7 +249,7 @@ class GarbageCollector:
         target = payload.get("file_path") if isinstance(payload, dict) else None
         if not isinstance(target, str) or not target:
             return legacy
-        return {self._normalize_path(target)}
+        return set(self._reference_keys(target))
 
     def _list_prefix(self, prefix: str) -> "list[tuple[str, str]]":
         """List a prefix and classify every entry: [(listed path, comparison key)].
@@ -260,7 +266,7 @@ class GarbageCollector:
 
         listing = []
         for file_rel_path in all_files:
-            norm_path = self._normalize_path(file_rel_path)
+            norm_path = self._normalize_listed_path(file_rel_path)
 
             # Independent guard against the #45 class of bug: a listed path that
             # escapes the table root can never be matched against the reachable
@@ -311,3 +317,42 @@ class GarbageCollector:
         if path.startswith(self.table_path):
             path = path[len(self.table_path):]
         return path.lstrip("/")
+
+    def _normalize_listed_path(self, path: str) -> str:
+        """Comparison key of a path returned by storage.list_files().
+
+        Listings are table-relative by contract, so nothing but leading slashes
+        is stripped. Stripping the table location as a string prefix here (as
+        _normalize_path does) turned 'data/x.parquet' into 'x.parquet' or
+        '/x.parquet' into ... whenever the location is a string prefix of an
+        internal directory name ('d', 'data', '/data', 'm', 'metadata', ...),
+        after which no live file matched the reachable set and everything was
+        deleted.
+        """
+        return path.lstrip("/")
+
+    def _reference_keys(self, path: str) -> "list[str]":
+        """Comparison keys of a path REFERENCED by metadata, a manifest or a marker.
+
+        References are table-relative ('data/x', '/data/x'); some writers store
+        them prefixed with the table location. The two cannot be told apart
+        when the location is a string prefix of an internal directory name, so
+        BOTH readings are returned (table-relative first): over-approximating
+        the reachable set can only keep a file, never delete one.
+        """
+        keys = [path.lstrip("/")]
+        stripped = self._normalize_path(path)
+        if stripped not in keys:
+            keys.append(stripped)
+        return keys
+
+    def _existing_reference(self, path: str) -> str:
+        """The reading of a referenced path that storage can actually find."""
+        keys = self._reference_keys(path)
+        for key in keys:
+            try:
+                if self.storage.exists(key):
+                    return key
+            except Exception:
+                continue
+        return keys[0]
